@@ -137,6 +137,9 @@ package terminal
 //@   ensures  [total] (n == nil) != (err == nil) && len(data.ElemsOf(cp)) == 0
 //@   ensures  [node] n != nil ==> n.Pos() == pos && (int(n.ReaderPos()) == int(pos) + len(trueStr) || int(n.ReaderPos()) == int(pos) + len(falseStr))
 //@   ensures  [fail] err != nil ==> err.Pos() == pos
+//@   logs text.(*Reader).MatchWord
+//@   ensures  [true-first;C08] ncalls() >= 1 && callarg[parsley.Pos](1, 1) == pos && callarg[string](1, 2) == trueStr && (callres[bool](1, 1) ==> ncalls() == 1 && n != nil && n.ReaderPos() == callres[parsley.Pos](1, 0))
+//@   ensures  [then-false;C08] !callres[bool](1, 1) ==> ncalls() == 2 && callarg[parsley.Pos](2, 1) == pos && callarg[string](2, 2) == falseStr && (callres[bool](2, 1) ==> n != nil && n.ReaderPos() == callres[parsley.Pos](2, 0)) && (!callres[bool](2, 1) ==> n == nil)
 //@   ghost_return when err != nil && err.Pos() > parsley.GhostMaxFail :: parsley.GhostMaxFail = err.Pos()
 
 //@ closure Nil$1(ctx *parsley.Context, lrc data.IntMap, pos parsley.Pos) (n parsley.Node, cp data.IntSet, err parsley.Error)
